@@ -7,7 +7,7 @@ appears between the two sentinel deliveries is attributed to it.
 
 import asyncio
 
-from .. import env
+from .. import env, gen
 from ..fakes import udp
 from ..prop import Prop
 from ..ref import broadcast as rb
@@ -63,6 +63,7 @@ class C06(Prop):
         self.port = self.rig.free_ports(1)[0]
         self.bridge = SwitcherBridge(self.rig.log.callback, [self.port])
         await self.bridge.start()
+        self.tp = await udp.probe_bridges(self.rig)
         self.caps = [_res(c) for c in CAPTURES]
         self.vnow = 1_790_000_000.0
         # the same event loop also runs a TCP client that keeps connecting, querying and disconnecting (a real integration
@@ -95,6 +96,8 @@ class C06(Prop):
         except BaseException:
             pass
         await self.trig.close()
+        for b, _, _ in self.tp:
+            await b.stop()
         await self.bridge.stop()
         self.rig.uninstall(asyncio.get_running_loop())
 
@@ -271,6 +274,14 @@ class C06(Prop):
             self.rig.send(self.port, data)
             tags.append(self.rig.send_sentinel(self.port))
             judged.append((data, cls))
+            if cls[0] == "unknown-model" and cls[2] % 4 == 1:
+                # the same unknown device is heard again an hour (a day) later: same verdict
+                await env.wait_real(self.rig.log.sentinels[tags[-1]], 10.0)      # the first sighting has been handled by now
+                env.idle(3700 if cls[2] % 8 == 1 else 90000)
+                self.rig.send(self.port, data)
+                tags.append(self.rig.send_sentinel(self.port))
+                judged.append((data, cls))
+                acc.count("unknown_models_heard_again_after_an_hour")
         res = await self.rig.wait_sentinel(tags[-1], self.port)
         for t in tags[:-1]:
             self.rig.log.sentinels.pop(t, None)
@@ -341,6 +352,26 @@ class C06(Prop):
 
     def finish(self, acc, ctx):
         acc.count("tcp_client_cycles_in_the_same_loop", self.churn_ops)
+
+
+    def thread_pairs(self, ctx):
+        r = env.rng("C06", "threads")
+        (b1, p1, g1), (b2, p2, g2) = self.tp
+        if p1 is None or p2 is None:
+            return []
+        d = {m: gen.broadcast_desc(r, m, 7, f"{0xD00000 + n:06x}") for n, m in enumerate(("BREEZE", "V4", "RUNNER", "POWER_PLUG", "BREEZE"))}
+        d2 = gen.broadcast_desc(r, "BREEZE", 11, "d000aa")
+        enc = {m: rb.encode(x) for m, x in d.items()}
+        nomagic = bytearray(enc["V4"])
+        nomagic[0:2] = b"\x00\x00"
+        unknown = bytearray(enc["V4"])
+        unknown[74:76] = b"\xee\x01"
+        H, J = udp.handed_over, udp.judge_delivery
+        return [("first broadcast ever: Breeze || Breeze", H(p1, g1, enc["BREEZE"]), H(p2, g2, rb.encode(d2)), J(d["BREEZE"]), J(d2)),
+                ("frame without the magic || genuine broadcast", H(p1, g1, bytes(nomagic)), H(p2, g2, enc["RUNNER"]), J(None), J(d["RUNNER"])),
+                ("genuine broadcast || frame without the magic", H(p1, g1, enc["POWER_PLUG"]), H(p2, g2, bytes(nomagic)), J(d["POWER_PLUG"]), J(None)),
+                ("unknown model || water heater", H(p1, g1, bytes(unknown)), H(p2, g2, enc["V4"]), J("unknown"), J(d["V4"])),
+                ("runner || plug", H(p1, g1, enc["RUNNER"]), H(p2, g2, enc["POWER_PLUG"]), J(d["RUNNER"]), J(d["POWER_PLUG"]))]
 
 
 PROP = C06()
